@@ -290,12 +290,14 @@ class E4Session(SessionBase):
             sig = 'redesign-of-reloaded-export-differs'
             if self._only_eol_growth(self.e1, exp):
                 sig = 'redesign-adds-EOL-to-con_out-again'
+            elif self._only_auto_voa_rounding(self.e1, exp):
+                sig = 'redesign-corrects-auto-voa-rounded-above-p_max'
             if sig == 'redesign-of-reloaded-export-differs' or not self.known.is_open('C17', sig):
                 raise Violation('C17', sig, f'round {self.rounds}: {d}', signature=sig)
             # known finding: every later round of this session shifts by the same mechanism, so the remaining
-            # fixpoint comparisons of this session are waived (worlds with EOL = 0 stay fully judged)
+            # fixpoint comparisons of this session are waived (worlds outside the finding's signature stay fully judged)
             self.fixpoint_waived = True
-            self.st.notes['fixpoint_waived_after_known_EOL_finding'] += 1
+            self.st.notes[f'fixpoint_waived_after_known_finding:{sig}'] += 1
         if self.fixpoint_waived:
             pass
         elif self.e_first_redesign is None:
@@ -326,6 +328,34 @@ class E4Session(SessionBase):
                 return False
             grew = grew or round(k) > 0
         return grew
+
+    def _only_auto_voa_rounding(self, e1, e2):
+        """the library has amplifiers with out_voa_auto, Span.voa_margin < voa_step / 2 (so the automatic VOA can be rounded
+        *up* past the p_max limit), and the documents differ only in gain_target / delta_p of amplifiers, by at most half a
+        VOA step"""
+        span = self.world['eqpt']['Span'][0]
+        step, margin = span.get('voa_step', 0.5), span.get('voa_margin', 1)
+        if margin >= step / 2 or not any(a.get('out_voa_auto') for a in self.world['eqpt']['Edfa']):
+            return False
+        a = {e['uid']: e for e in e1['elements']}
+        b = {e['uid']: e for e in e2['elements']}
+        if set(a) != set(b) or sorted((c['from_node'], c['to_node']) for c in e1['connections']) != \
+                sorted((c['from_node'], c['to_node']) for c in e2['connections']):
+            return False
+        for uid in a:
+            if a[uid] == b[uid]:
+                continue
+            if a[uid]['type'] != 'Edfa':
+                return False
+            oa, ob = dict(a[uid]['operational']), dict(b[uid]['operational'])
+            for k in ('gain_target', 'delta_p'):
+                va, vb = oa.pop(k, None), ob.pop(k, None)
+                if (va is None) != (vb is None) or (va is not None and abs(va - vb) > step / 2 + 1e-6):
+                    return False
+            if oa != ob or {k: v for k, v in a[uid].items() if k != 'operational'} != \
+                    {k: v for k, v in b[uid].items() if k != 'operational'}:
+                return False
+        return True
 
     def _probe(self):
         sites = self.world['meta']['sites']
